@@ -61,4 +61,5 @@ def main():
     sh(f"git -C {repo} checkout -q -- . && git -C {repo} clean -fdq -e target")
     print("RESULT-JSON " + json.dumps(results))
 
-main()
+if __name__ == '__main__':
+    main()
